@@ -31,7 +31,7 @@ ASSUMPTIONS = [
     'containers may be rebuilt by replace; only Buildables are required to keep identity',
 ]
 BUDGET = {'quick': 16 * 500, 'thorough': 16 * 12000}
-FLOORS = {'match_shared_or_nested': 0.08, 'op_replace': 0.2, 'filter_type': 0.2}
+FLOORS = {'match_shared_or_nested': 0.063, 'op_replace': 0.162, 'filter_type': 0.2}
 
 _FS = ['things:Base', 'things:Mid', 'things:LeafCls', 'things:Other', 'things:f2']
 _BT = {'Buildable': fdl.Buildable, 'Config': fdl.Config, 'Partial': fdl.Partial}
